@@ -528,6 +528,30 @@ def wsCom : Com → Bool
   | .cond b c1 c2 => tyC b && wsCom c1 && wsCom c2
   | .while b _ c => tyC b && wsCom c
 
+/-! ## Decidable hypotheses of the lexer theorems (answered by the driver for every generated input) -/
+
+def opOK (o : BOp) : Bool := o.isArith || o.isRel || o.boolPrio.isSome
+
+/-- expressions all of whose tokens have a concrete syntax: operators of the grammar, names that are identifiers -/
+def lexOK : Expr → Bool
+  | .var x => nameOK x
+  | .int _ | .bool _ => true
+  | .un _ a => lexOK a
+  | .bin o a b => opOK o && lexOK a && lexOK b
+  | .fn1 _ a => lexOK a
+  | .fn2 _ a b => lexOK a && lexOK b
+  | .ite c a b => lexOK c && lexOK a && lexOK b
+
+/-- all variable names are identifiers that are not keywords -/
+def namesOK : Expr → Bool
+  | .var x => nameOK x
+  | .int _ | .bool _ => true
+  | .un _ a => namesOK a
+  | .bin _ a b => namesOK a && namesOK b
+  | .fn1 _ a => namesOK a
+  | .fn2 _ a b => namesOK a && namesOK b
+  | .ite c a b => namesOK c && namesOK a && namesOK b
+
 /-! ## `imp.vcg` (the HOL-level generator of imperative/imp.py)
 
 `imp.vcg T (Valid P c Q)` applies `pre_rule` to `compute_wp`, whose `While` case assumes
@@ -557,6 +581,22 @@ def normNeg : Expr → Expr
   | .fn2 f a b => .fn2 f (normNeg a) (normNeg b)
   | .ite c a b => .ite (normNeg c) (normNeg a) (normNeg b)
 
+
+/-- the tokens of a printed program -/
+def comToks : Com → List Tok
+  | .skip => [.kskip]
+  | .assign x e => .id x :: .assign :: toks e
+  | .seq c1 c2 => comToks c1 ++ .semi :: comToks c2
+  | .cond b c1 c2 => .kif :: .lp :: toks b ++ .rp :: .kthen :: comToks c1 ++ .kelse :: comToks c2
+  | .while b inv c => .kwhile :: .lp :: toks b ++ .rp :: .lbrace :: .lbrack :: toks inv ++ .rbrack :: comToks c ++ [.rbrace]
+
+/-- programs all of whose tokens have a concrete syntax -/
+def lexOKc : Com → Bool
+  | .skip => true
+  | .assign x e => nameOK x && lexOK e
+  | .seq c1 c2 => lexOKc c1 && lexOKc c2
+  | .cond b c1 c2 => lexOK b && lexOKc c1 && lexOKc c2
+  | .while b inv c => lexOK b && lexOK inv && lexOKc c
 
 /-! ## Parser
 
